@@ -113,9 +113,13 @@ def run_job(job):
             all_ok = True
             # a column without any file attribute next to `path` must not change how many rows come back
             extra_col = rng.choice(["", "", ", 'tag'", ", 1 + 2", ", upper('x')", ", 7"])
+            # ... and neither must the place where the attribute is mentioned: as a plain column, or as a later argument of a call
+            # whose value is the path again
+            path_col = rng.choice(["path", "path", "path", "concat('', path)", "coalesce('', path)", "concat('', '', path)", "substr(path, 1)"])
+            res.cover("path_column_spelling", path_col)
             for N in ns:
                 ltxt = "" if N is None else " limit %d" % N
-                q = "path%s%s%s%s%s into list" % (extra_col, "" if nofrom else " from " + frm, wtxt, otxt, ltxt)
+                q = "%s%s%s%s%s%s into list" % (path_col, extra_col, "" if nofrom else " from " + frm, wtxt, otxt, ltxt)
                 if not nofrom:
                     pool.append(q)
                 r = run(q, trace=(N is not None and N % 5 == 1))
@@ -191,6 +195,6 @@ def main(chk):
              "unlimited result (ties compare keys only). Non-trivial = M >= 2; distinct by (from, where, order, M).",
         assumptions=["the unlimited result and the key values come from fselect itself (metamorphic)",
                      "directory listing order is whatever readdir returns; it is assumed stable between two runs on an unchanged tmpfs tree"],
-        require={"paths": 6},
+        require={"paths": 6, "path_column_spelling": 5},
         exhaustive={"N": "every N in 1..M+2, plus 0 and absent, for every generated query (sampled 40 values when M > 45)"},
     )
